@@ -44,6 +44,7 @@ TRUSTED = ["modelled: tdm/program.py (shift_by, _unroll_program, apply_op, unrol
 # weight eps^2 = 4e-8: predicted means carry noise of ~1e-7..1e-6.  NumPy's global RNG is seeded identically
 # for the two runs, and the comparison tolerance is 2e-5 * max(1, std) (wrong circuits differ by >1e-2).
 TOL = 2e-5
+TAGS = [float(k) for k in range(4096)]
 
 
 # =============================================================================== correspondence
@@ -87,6 +88,9 @@ ALPHABET = [dict(ev="unroll", shots=1), dict(ev="unroll", shots=2), dict(ev="spa
             dict(ev="run", shots=None, space=True, crop=False), dict(ev="run", shots=None, space=False, crop=True)]
 
 
+CROP_ERRORS = []
+
+
 def crop_ok(sf, spec):
     """cropping is implemented for single-band programs without nested loops only"""
     if len(spec["N"]) > 1:
@@ -96,19 +100,20 @@ def crop_ok(sf, spec):
         return True
     except NotImplementedError:
         return False
+    except Exception as e:  # noqa: BLE001 -- reported as a failing input at the end of run()
+        CROP_ERRORS.append((spec, "%s: %s" % (type(e).__name__, str(e)[:120])))
+        return False
 
 
 def legal_event(spec, mode, ev, cropok=None):
-    """events the harness issues: crop only for single-band programs; a space-unrolled circuit with
-    measurements is only executed with shots=None (samples of space-unrolled runs are a separate, known finding)"""
+    """events the harness issues: crop only for single-band programs without nested loops"""
     ev = dict(ev)
     if ev["ev"] == "run":
         if len(spec["N"]) > 1 or cropok is False:
             ev["crop"] = False
-        if executes_space(mode, ev) and any(T.is_meas(o) for o in spec["ops"]):
-            ev["shots"] = None
-        if T.true_measured_modes(spec, 3) != T.assumed_measured_modes(spec, 3):
-            ev["shots"] = None  # sample arrangement under other shifts is a separate (known) finding
+        if ev.get("crop") and ev["shots"] is not None and not any(T.is_meas(o) and o["regs"][0] == 0 for o in spec["ops"]) \
+                and any(T.is_meas(o) for o in spec["ops"]):
+            ev["crop"] = False  # the engine crops samples_dict[0] only
     return ev
 
 
@@ -126,23 +131,42 @@ def gen_history(rng, spec, length, cropok=None):
     return evs
 
 
-def real_history(sf, spec, evs, xs):
-    """run the calls on the real code; returns (list of dict(out=, st=), per-run details, program)"""
-    prog = T.build(sf, spec)
-    steps, runs = [], []
-    for ev in evs:
-        out = "ok"
-        k = ev["ev"]
+class Subject:
+    """one real TDMProgram driven through a call history"""
+
+    def __init__(self, sf, spec, opts=None, params=None):
+        opts = opts or {}
+        self.sf, self.spec = sf, spec
+        self.prog = T.build(sf, spec, params=params, share=bool(opts.get("share")))
+        self.inputs0 = T.inputs_of(self.prog)
+        self.eng = sf.Engine("gaussian") if opts.get("reuse_engine") else None
+        self.steps, self.runs, self.dead = [], [], False
+
+    def call(self, ev, xs):
+        if self.dead:
+            return
         try:
-            out = _one_call(sf, prog, ev, xs, runs)
+            out = _one_call(self.sf, self.prog, ev, xs, self.runs, self.eng)
         except Exception as e:  # noqa: BLE001 -- every call the harness issues is legal: it must not raise
-            steps.append(dict(out="raised %s: %s" % (type(e).__name__, str(e)[:120]), st=T.snapshot(prog)))
-            return steps, runs, prog
-        steps.append(dict(out=out, st=T.snapshot(prog)))
-    return steps, runs, prog
+            self.steps.append(dict(out="raised %s: %s" % (type(e).__name__, str(e)[:120]), st=T.snapshot(self.prog)))
+            self.dead = True
+            return
+        step = dict(out=out, st=T.snapshot(self.prog))
+        inp = T.inputs_of(self.prog)
+        if inp != self.inputs0:
+            step["inputs_changed"] = [k for k in inp if inp[k] != self.inputs0[k]]
+        self.steps.append(step)
 
 
-def _one_call(sf, prog, ev, xs, runs):
+def real_history(sf, spec, evs, xs, opts=None):
+    """run the calls on the real code; returns (list of dict(out=, st=), per-run details, program)"""
+    sub = Subject(sf, spec, opts)
+    for ev in evs:
+        sub.call(ev, xs)
+    return sub.steps, sub.runs, sub.prog
+
+
+def _one_call(sf, prog, ev, xs, runs, eng=None):
     if True:
         out = "ok"
         k = ev["ev"]
@@ -159,13 +183,19 @@ def _one_call(sf, prog, ev, xs, runs):
             prog.lock()
         elif k == "run":
             rec, log = {}, []
-            eng = sf.Engine("gaussian")
+            if eng is None:
+                eng = sf.Engine("gaussian")
+            elif eng.run_progs:
+                eng.reset()  # the same engine object serves every run of the history
             with warnings.catch_warnings():
                 warnings.simplefilter("ignore")
                 with T.capture_engine(sf, rec), T.scripted_homodyne(xs, log):
                     res = eng.run(prog, shots=ev["shots"], space_unroll=ev["space"], crop=ev["crop"])
             nstate = res.state.num_modes if res.state is not None else None
-            out = dict(executed=rec.get("executed"), backendModes=rec.get("backendModes"), nstate=nstate)
+            sd = None
+            if res.samples_dict:
+                sd = [[int(k2), np.array(v).astype(int).tolist()] for k2, v in res.samples_dict.items()]
+            out = dict(executed=rec.get("executed"), backendModes=rec.get("backendModes"), nstate=nstate, samples=sd)
             runs.append(dict(ev=ev, log=log, samples=None if res.samples is None else np.array(res.samples),
                              samples_dict={int(k2): np.array(v) for k2, v in (res.samples_dict or {}).items()}))
         return out
@@ -180,23 +210,66 @@ def norm_model_step(m):
     return m
 
 
-def history_case(ctx, sf, spec, evs, reqs, pending, xs):
-    """correspondence + history oracle for one (program, calls) pair"""
-    case = dict(spec=spec, evs=evs)
-    nt = spec["T"] >= 2 and (sum(spec["N"]) >= 2)
-    ctx.count("history:len%d" % min(len(evs), 9), case, nt, sample=case)
-    for ev in evs:
-        ctx.tally("ev:" + ev["ev"] + (":space" if ev.get("space") else "") + (":crop" if ev.get("crop") else ""))
-    steps, runs, prog = real_history(sf, spec, evs, xs)
+def judge_history(ctx, sf, spec, evs, steps, runs, reqs, pending, opts, extra=None):
+    """oracle + model request for one finished real history"""
+    xs = TAGS
+    rp = dict(kind="history", spec=spec, evs=evs, xs=None, opts=opts)
+    if extra:
+        rp.update(extra)
+    case = dict(spec=spec, evs=evs, opts=opts)
     if steps and isinstance(steps[-1]["out"], str) and steps[-1]["out"].startswith("raised"):
         ctx.oracle_cases += 1
         names = [e["ev"] + ("(%s)" % e["shots"] if "shots" in e else "") + ("+space" if e.get("space") else "") for e in evs[:len(steps)]]
-        ctx.fail("call-raises:" + evs[len(steps) - 1]["ev"], f"N={spec['N']} timebins={spec['T']}: after {names} the last call "
-                 f"{steps[-1]['out']}", dict(kind="history", spec=spec, evs=evs, xs=list(xs)))
+        ctx.fail("call-raises:" + evs[len(steps) - 1]["ev"], f"N={spec['N']} timebins={spec['T']} {opts}: after {names} the last call "
+                 f"{steps[-1]['out']}", rp)
         return
-    oracle_history(ctx, sf, spec, evs, steps, runs, xs)
+    for i, st in enumerate(steps):
+        if st.pop("inputs_changed", None):
+            ctx.fail("input-mutated", f"N={spec['N']}: call {i} ({evs[i]['ev']}) changed the parameter arrays / N / shift handed "
+                     f"to the program", rp)
+            return
+    oracle_history(ctx, sf, spec, evs, steps, runs, xs, rp=rp)
     reqs.append(dict(op="tdm.history", evs=evs, **T.model_cfg(spec)))
     pending.append((case, steps))
+
+
+def history_case(ctx, sf, spec, evs, reqs, pending, xs, opts=None):
+    """correspondence + history oracle for one (program, calls) pair"""
+    opts = opts or {}
+    case = dict(spec=spec, evs=evs, opts=opts)
+    nt = spec["T"] >= 2 and (sum(spec["N"]) >= 2)
+    ctx.count("history:len%d" % min(len(evs), 9), case, nt, sample=case)
+    for k, v in opts.items():
+        if v:
+            ctx.tally("history-opt:" + k)
+    for ev in evs:
+        ctx.tally("ev:" + ev["ev"] + (":space" if ev.get("space") else "") + (":crop" if ev.get("crop") else ""))
+    # the k-th measurement of a run returns the tag k: sample dictionaries are compared exactly with the model
+    steps, runs, prog = real_history(sf, spec, evs, TAGS, opts)
+    judge_history(ctx, sf, spec, evs, steps, runs, reqs, pending, opts)
+
+
+def interleaved_case(ctx, sf, specA, evsA, specB, evsB, reqs, pending, shared, opts=None):
+    """two programs driven alternately (optionally built on the SAME parameter list objects): each must behave
+    exactly as if it were alone"""
+    opts = dict(opts or {}, interleaved=True, shared_params=bool(shared))
+    lists = [list(a) for a in specA["params"]] if shared else None
+    before = copy.deepcopy(lists)
+    A = Subject(sf, specA, opts, params=lists)
+    B = Subject(sf, specB, opts, params=lists)
+    ctx.count("interleaved:%s" % ("shared-arrays" if shared else "separate"), dict(a=specA, b=specB, ea=evsA, eb=evsB),
+              specA["T"] >= 2, sample=dict(a=specA, ea=evsA, b=specB, eb=evsB))
+    for i in range(max(len(evsA), len(evsB))):
+        if i < len(evsA):
+            A.call(evsA[i], TAGS)
+        if i < len(evsB):
+            B.call(evsB[i], TAGS)
+    extra = dict(kind="interleaved", specA=specA, evsA=evsA, specB=specB, evsB=evsB, shared=bool(shared))
+    if shared and lists != before:
+        ctx.fail("input-mutated", "the parameter lists shared by two programs were changed in place", dict(extra, opts=opts))
+        return
+    judge_history(ctx, sf, specA, evsA[:len(A.steps)] if A.dead else evsA, A.steps, A.runs, reqs, pending, opts, extra)
+    judge_history(ctx, sf, specB, evsB[:len(B.steps)] if B.dead else evsB, B.steps, B.runs, reqs, pending, opts, extra)
 
 
 def flush_histories(ctx, reqs, pending):
@@ -207,6 +280,11 @@ def flush_histories(ctx, reqs, pending):
         ctx.corr_cases += 1
         if isinstance(model, dict) and "__error__" in model:
             ctx.disagree("Tdm.history (model error)", case, model, None)
+            continue
+        if isinstance(model, dict) and "order" in model:
+            model.pop("rank", None)
+            if model != steps:
+                ctx.disagree("Tdm.measOrder/measuredModes vs TDMProgram.get_mode_order/measured_modes", case, model, steps)
             continue
         model = [norm_model_step(m) for m in model]
         if model != steps:
@@ -259,6 +337,27 @@ def corr_reshape(ctx, sf):
             got = "raised " + type(e).__name__
         reqs.append(dict(op="tdm.reshape", samples=[[k, raw[k]] for k in sorted(raw)], modes=modes, N=N, T=tb))
         impl.append(("reshape", case, got))
+        # with an explicit mode order: whole-register rotation by r per bin (what integer shifts produce)
+        C, r = sum(N), rng.randint(0, sum(N))
+        raw2, order2 = {}, []
+        for g in range(shots * tb):
+            for b, n in enumerate(N):
+                m = (modes[b] + g * r) % C
+                raw2.setdefault(m, []).append(1000 * (g // tb) + 100 * b + (g % tb) + 7)
+                order2.append(m)
+        sd2 = {k: [np.array([v]) for v in raw2[k]] for k in sorted(raw2)}
+        try:
+            out2 = reshape_samples(sd2, modes, N, tb, mode_order=order2)
+            got2 = [[int(k), np.array(v).astype(int).tolist()] for k, v in out2.items()]
+        except Exception as e:  # noqa: BLE001
+            got2 = "raised " + type(e).__name__
+        reqs.append(dict(op="tdm.reshape", samples=[[k, raw2[k]] for k in sorted(raw2)], modes=modes, N=N, T=tb, order=order2))
+        impl.append(("reshapeWith", dict(case, rot=r), got2))
+        ctx.oracle_cases += 1
+        want2 = [[modes[b], [[tag_of[(sh, b, t)] for t in range(tb)] for sh in range(shots)]] for b in range(len(N))]
+        if got2 != want2:
+            ctx.fail("reshape-placement", f"reshape_samples with the true mode order misplaces samples for N={N} modes={modes} "
+                     f"shots={shots} timebins={tb} rotation={r}", dict(kind="reshape", **case, offs=offs, rot=r))
         # property-level: entry (shot, band, bin)
         ctx.oracle_cases += 1
         bad = None
@@ -310,10 +409,15 @@ def corr_crop(ctx, sf):
             p[:z] = [0] * z
         prog = T.build(sf, spec)
         try:
-            delays = [int(x) for x in prog.get_delays()]
-        except NotImplementedError:
-            delays = None
-        crop = int(prog.get_crop_value()) if delays is not None else None
+            try:
+                delays = [int(x) for x in prog.get_delays()]
+            except NotImplementedError:
+                delays = None
+            crop = int(prog.get_crop_value()) if delays is not None else None
+        except Exception as e:  # noqa: BLE001
+            ctx.fail("get_crop_value-raises", f"get_delays/get_crop_value of a single-band program (N={spec['N']}) raises "
+                     f"{type(e).__name__}: {str(e)[:100]}", dict(kind="cropcall", spec=spec))
+            continue
         reqs.append(dict(op="tdm.crop", **T.model_cfg(spec)))
         impl.append(("crop", spec, dict(delays=delays, crop=crop)))
         ctx.count("crop:random", spec, delays not in (None, []))
@@ -325,15 +429,22 @@ def corr_crop(ctx, sf):
         for _ in range(d):
             z = rng.choice([0, 0, 1, 2, 3, L, L])
             alphas.append([0] * min(z, L) + [rng.randint(1, 5) for _ in range(L - min(z, L))])
-        ga = dict(Sgate=[1] * L, loops={i: dict(Rgate=[1] * L, BSgate=list(alphas[i])) for i in range(d)})
+        rl = [[10 * (i + 1) + k + 1 for k in range(L)] for i in range(d)]  # rotation arguments: distinct non-zero tags
+        sl = [100 + k for k in range(L)]
+        ga = dict(Sgate=list(sl), loops={i: dict(Rgate=list(rl[i]), BSgate=list(alphas[i])) for i in range(d)})
+        ga0 = copy.deepcopy(ga)
         pad = vacuum_padding(ga, delays=dl)
         padded = [[int(v) for v in pad["loops"][i]["BSgate"]] for i in range(d)]
         reqs.append(dict(op="tdm.pad", alphas=alphas, delays=dl))
         case = dict(alphas=alphas, delays=dl)
+        if ga != ga0:
+            ctx.fail("input-mutated", f"vacuum_padding changed its input dictionary (alphas={alphas}, delays={dl})", dict(kind="pad", **case))
         spec2 = loop_program_spec(dl, padded, len(padded[0]))
         prog2 = T.build(sf, spec2)
         real_crop = int(prog2.get_crop_value())
-        impl.append(("pad", case, dict(crop=int(pad["crop"]), padded=padded, cropOfPadded=real_crop)))
+        impl.append(("pad", dict(case, rl=rl, sl=sl, padR=[[int(v) for v in pad["loops"][i]["Rgate"]] for i in range(d)],
+                                  padS=[int(v) for v in pad["Sgate"]]),
+                     dict(crop=int(pad["crop"]), padded=padded, cropOfPadded=real_crop)))
         ctx.count("crop:padding", case, d >= 2)
         ctx.oracle_cases += 1
         if [int(x) for x in prog2.get_delays()] != dl:
@@ -347,6 +458,14 @@ def corr_crop(ctx, sf):
             ctx.corr_cases += 1
             if kind == "crop" and iv["delays"] is None:
                 mv = dict(delays=mv["delays"], crop=None)
+            if kind == "pad":
+                pro = mv.pop("prologues")
+                tot = mv["crop"]
+                wantR = [[0] * pro[i] + case["rl"][i] + [0] * (tot - pro[i]) for i in range(len(pro))]
+                wantS = [0] * pro[0] + case["sl"] + [0] * (tot - pro[0])
+                if case["padR"] != wantR or case["padS"] != wantS:
+                    ctx.disagree("Tdm.prologues vs vacuum_padding (Rgate/Sgate lists)", dict(alphas=case["alphas"], delays=case["delays"]),
+                                 dict(R=wantR, S=wantS), dict(R=case["padR"], S=case["padS"]))
             if mv != iv:
                 ctx.disagree(f"Tdm.{kind} vs get_delays/get_crop_value/vacuum_padding", case, mv, iv)
 
@@ -362,13 +481,13 @@ def same_prediction(a, b):
     return close(a[0], b[0]) and close(a[2], b[2], std) and close(a[3], b[3])
 
 
-def oracle_loop(ctx, sf, spec, shots, xs):
+def oracle_loop(ctx, sf, spec, shots, xs, share=False):
     """shift-unrolled run vs the loop written out by hand, scripted outcomes; sample placement"""
     case = dict(spec=spec, shots=shots)
     nt = spec["T"] >= 2 and (sum(spec["N"]) >= 2 or shots >= 2)
     ctx.count("loop:%s:N%s" % ("default" if spec["shift"] == "default" else "int", len(spec["N"])), case, nt, sample=case)
     ctx.oracle_cases += 1
-    rp = dict(kind="loop", spec=spec, shots=shots, xs=list(xs))
+    rp = dict(kind="loop", spec=spec, shots=shots, xs=list(xs), share=share)
     n_modes, cmds, info = T.explicit_loop(spec, shots)
     log_e = []
     np.random.seed(12345)
@@ -376,7 +495,7 @@ def oracle_loop(ctx, sf, spec, shots, xs):
         sf.Engine("gaussian").run(T.explicit_program(sf, n_modes, cmds))
     np.random.seed(12345)
     log_t, err, res = [], None, None
-    prog = T.build(sf, spec)
+    prog = T.build(sf, spec, share=share)
     with warnings.catch_warnings():
         warnings.simplefilter("ignore")
         with T.scripted_homodyne(xs, log_t):
@@ -399,22 +518,22 @@ def oracle_loop(ctx, sf, spec, shots, xs):
                      f"unrolled program but {b[0]:.6g}/{b[2]:.6g}/{b[3]:.6g} in the explicit loop", rp)
             return
     # (2) samples at (shot, band, bin)
-    nondefault = T.true_measured_modes(spec, shots) != T.assumed_measured_modes(spec, shots)
-    sig = "samples-placement:non-default-shift" if nondefault else "samples-placement"
+    sig = "samples-placement"
     Tn, B = spec["T"], len(spec["N"])
     if err is not None:
-        ctx.fail(sig if nondefault else "samples-error", f"run(shots={shots}) of N={spec['N']} shift={spec['shift']} "
+        ctx.fail("samples-error", f"run(shots={shots}) of N={spec['N']} shift={spec['shift']} "
                  f"raises {type(err).__name__} while arranging the samples", rp)
         return
     samples = np.array(res.samples)
     if samples.shape != (shots, B, Tn):
         ctx.fail(sig, f"samples have shape {samples.shape}, expected {(shots, B, Tn)} (N={spec['N']} shift={spec['shift']})", rp)
         return
-    starts = T.band_starts(spec["N"])
+    band_of = [b for b, n in enumerate(spec["N"]) for _ in range(n)]
+    starts = {band_of[o["regs"][0]]: o["regs"][0] for o in spec["ops"] if T.is_meas(o)}  # measured slot of each band
     for k, (g, band) in enumerate(info):
         x = xs[k % len(xs)]
         s, t = g // Tn, g % Tn
-        if samples[s, band, t] != x or res.samples_dict[starts[band]][s][t] != x:
+        if samples[s, band, t] != x or starts[band] not in res.samples_dict or res.samples_dict[starts[band]][s][t] != x:
             ctx.fail(sig, f"N={spec['N']} shift={spec['shift']} shots={shots}: the outcome of pulse (shot {s}, band {band}, "
                      f"bin {t}) is not at samples[{s},{band},{t}] / samples_dict[{starts[band]}][{s}][{t}]", rp)
             return
@@ -456,26 +575,117 @@ def oracle_space(ctx, sf, spec, crop):
                  f"{snap['refs']} / {len(snap['circuit'])} commands", rp)
 
 
-def oracle_space_samples(ctx, sf, spec, shots, xs):
-    """samples of a space-unrolled run (known finding: reshape_samples assumes the shift-unrolled order)"""
-    ctx.count("space-samples", dict(spec=spec, shots=shots), False)
+def oracle_space_samples(ctx, sf, spec, shots, xs, crop=False):
+    """samples of a space-unrolled run sit at (shot, band, bin) too"""
+    case = dict(spec=spec, shots=shots, crop=crop)
+    ctx.count("space-samples", case, spec["T"] >= 2 and shots >= 1, sample=case)
     ctx.oracle_cases += 1
-    rp = dict(kind="space_samples", spec=spec, shots=shots, xs=list(xs))
+    rp = dict(kind="space_samples", spec=spec, shots=shots, xs=list(xs), crop=crop)
     prog = T.build(sf, spec)
     log = []
     with warnings.catch_warnings():
         warnings.simplefilter("ignore")
         with T.scripted_homodyne(xs, log):
             try:
-                res = sf.Engine("gaussian").run(prog, shots=shots, space_unroll=True)
-            except IndexError:
-                ctx.fail("space-unrolled-samples", "run(space_unroll=True) with measurements and shots raises IndexError in "
-                         "reshape_samples (it assumes the mode order of the shift-unrolled circuit)", rp)
+                res = sf.Engine("gaussian").run(prog, shots=shots, space_unroll=True, crop=crop)
+            except Exception as e:  # noqa: BLE001
+                ctx.fail("space-unrolled-samples", f"run(space_unroll=True, shots={shots}) of N={spec['N']} timebins={spec['T']} "
+                         f"raises {type(e).__name__}: {str(e)[:100]}", rp)
                 return
+        lo = int(prog.get_crop_value()) if crop else 0
     samples = np.array(res.samples)
-    want = np.array([xs[k % len(xs)] for k in range(shots * spec["T"])]).reshape(shots, 1, spec["T"])
-    if samples.shape != want.shape or not np.array_equal(samples, want):
-        ctx.fail("space-unrolled-samples", "samples of the space-unrolled run are not arranged as (shot, band, bin)", rp)
+    Tn, B = spec["T"], len(spec["N"])
+    info = [(g, b) for g, b, _ in T.true_measured_modes(spec, shots)]
+    want = np.zeros((shots, B, Tn))
+    for k, (g, b) in enumerate(info):
+        want[g // Tn, b, g % Tn] = xs[k % len(xs)]
+    want = want[:, :, lo:]
+    if len(log) != len(info) or samples.shape != want.shape or not np.array_equal(samples, want):
+        ctx.fail("space-unrolled-samples", f"N={spec['N']} timebins={Tn} shots={shots} crop={crop}: samples of the space-unrolled run "
+                 f"are not arranged as (shot, band, bin) ({len(log)} measurements, shape {samples.shape}, expected {want.shape})", rp)
+
+
+def oracle_select(ctx, sf, spec, shots, kw):
+    """a post-selected measurement in the loop body: every bin is post-selected, whatever engine options are given"""
+    spec = copy.deepcopy(spec)
+    sel = 0.125
+    for o in spec["ops"]:
+        if T.is_meas(o):
+            o["s"] = sel
+    if kw.get("crop") and not crop_ok(sf, spec):
+        kw = dict(kw, crop=False)
+    case = dict(spec=spec, shots=1, kw=kw)
+    ctx.count("select+options", case, spec["T"] >= 2, sample=case)
+    ctx.oracle_cases += 1
+    rp = dict(kind="select", spec=spec, shots=1, kw=kw)
+    with warnings.catch_warnings():
+        warnings.simplefilter("ignore")
+        try:
+            res = sf.Engine("gaussian").run(T.build(sf, spec), shots=1, **kw)
+        except Exception as e:  # noqa: BLE001
+            ctx.fail("select-with-options", f"a TDM program with MeasureHomodyne(select=...) run with {kw} raises "
+                     f"{type(e).__name__}: {str(e)[:100]}", rp)
+            return
+    smp = np.array(res.samples)
+    if smp.size == 0 and kw.get("crop"):
+        return
+    if smp.size == 0 or not np.allclose(smp, sel, atol=1e-12):
+        ctx.fail("select-lost", f"post-selected outcomes are not returned for every time bin (options {kw})", rp)
+
+
+def oracle_mutation(ctx, sf, spec, evs, change, opts=None):
+    """state kept between calls: after any history ending rolled, the user changes a parameter array IN PLACE;
+    everything computed afterwards must be what a freshly built program with the new values gives"""
+    opts = opts or {}
+    case = dict(spec=spec, evs=evs, change=change, opts=opts)
+    ctx.count("mutation", case, spec["T"] >= 2, sample=case)
+    ctx.oracle_cases += 1
+    rp = dict(kind="mutation", spec=spec, evs=evs, change=change, opts=opts)
+    lists = [list(a) for a in spec["params"]]
+    sub = Subject(sf, spec, opts, params=lists)
+    for ev in evs + [dict(ev="roll")]:
+        sub.call(ev, TAGS)
+    if sub.dead:
+        ctx.fail("call-raises:" + "history", f"N={spec['N']}: a legal call history raised: {sub.steps[-1]['out']}", rp)
+        return
+    sub.prog.get_mode_order(); cropok = crop_ok(sf, spec)
+    if cropok:
+        sub.prog.get_crop_value(); sub.prog.get_delays()  # give identity-keyed memoisation a chance to go stale
+    i, t, v = change
+    lists[i][t] = v
+    spec2 = copy.deepcopy(spec)
+    spec2["params"][i][t] = v
+    fresh = lambda: T.build(sf, spec2, share=bool(opts.get("share")))
+    try:
+        for how, sh in (("shift", 1), ("shift", 2), ("space", 1)):
+            a, b = sub.prog, fresh()
+            (a.unroll if how == "shift" else a.space_unroll)(shots=sh)
+            (b.unroll if how == "shift" else b.space_unroll)(shots=sh)
+            if T.canon_circ(a.circuit) != T.canon_circ(b.circuit) or a.get_mode_order() != b.get_mode_order():
+                ctx.fail("stale-after-input-change", f"N={spec['N']} timebins={spec['T']}: after the history and an in-place change of "
+                         f"parameter array {i} at bin {t}, the {how}-unrolled circuit ({sh} shots) is not that of a fresh program", rp)
+                return
+            a.roll()
+        if cropok:
+            b = fresh()
+            if int(sub.prog.get_crop_value()) != int(b.get_crop_value()) or list(sub.prog.get_delays()) != list(b.get_delays()):
+                ctx.fail("stale-after-input-change", f"N={spec['N']}: get_crop_value/get_delays after an in-place change of the "
+                         f"parameter arrays: {sub.prog.get_crop_value()} vs {b.get_crop_value()} for a fresh program", rp)
+                return
+        recs = []
+        for prog in (sub.prog, fresh()):
+            rec, log = {}, []
+            with warnings.catch_warnings():
+                warnings.simplefilter("ignore")
+                with T.capture_engine(sf, rec), T.scripted_homodyne(TAGS, log):
+                    res = (sub.eng or sf.Engine("gaussian")) if False else sf.Engine("gaussian")
+                    res = res.run(prog, shots=2, crop=bool(cropok))
+            recs.append((rec.get("executed"), None if res.samples is None else np.array(res.samples).tolist(), [(l[0], l[1]) for l in log]))
+        if recs[0] != recs[1]:
+            ctx.fail("stale-after-input-change", f"N={spec['N']}: run(shots=2) after an in-place change of the parameter arrays "
+                     f"differs from the run of a fresh program", rp)
+    except Exception as e:  # noqa: BLE001
+        ctx.fail("call-raises:after-input-change", f"N={spec['N']}: {type(e).__name__}: {str(e)[:120]}", rp)
 
 
 def fresh_circuit(sf, spec, how, shots, cache):
@@ -487,12 +697,12 @@ def fresh_circuit(sf, spec, how, shots, cache):
     return cache[key]
 
 
-def oracle_history(ctx, sf, spec, evs, steps, runs, xs, cache=None):
+def oracle_history(ctx, sf, spec, evs, steps, runs, xs, cache=None, rp=None):
     """after any history: roll restores circuit/register exactly, (space-)unrolling gives the circuit a fresh
     program gives, the lock only changes by lock/run, rejected calls change nothing, runs place the samples"""
     ctx.oracle_cases += 1
     cache = {} if cache is None else cache
-    rp = dict(kind="history", spec=spec, evs=evs, xs=list(xs))
+    rp = rp or dict(kind="history", spec=spec, evs=evs, xs=None)
     C = sum(spec["N"])
     rolled0 = T.spec_circ(spec)
     refs0 = [[i, True] for i in range(C)]
@@ -534,7 +744,7 @@ def oracle_history(ctx, sf, spec, evs, steps, runs, xs, cache=None):
         elif k in ("unroll", "space_unroll") and step["out"] == "ok":
             how = "shift" if mode == "shift" else "space"
             want = fresh_circuit(sf, spec, how, st["shots"], cache)
-            nreg = C if how == "shift" else max(C, spec["T"] + C - 1)
+            nreg = C if how == "shift" else max(C, st["shots"] * spec["T"] + C - 1)
             if st["shots"] != ev["shots"] or st["circuit"] != want or st["refs"] != [[i, True] for i in range(nreg)] or st["init"] != nreg:
                 ctx.fail("unroll-depends-on-history", f"after {hist}: the {how}-unrolled circuit/register for shots={ev['shots']} "
                          f"differs from what a fresh program gives (register {st['refs']}, shots recorded {st['shots']})", rp)
@@ -557,7 +767,7 @@ def oracle_history(ctx, sf, spec, evs, steps, runs, xs, cache=None):
                          f"program unrolled for {sh} shot(s)", rp)
                 return
             has_meas = any(T.is_meas(o) for o in spec["ops"])
-            if ev["shots"] is not None and has_meas and not (ev["space"] or was == "space"):
+            if ev["shots"] is not None and has_meas:
                 Tn, B = spec["T"], len(spec["N"])
                 lo = 0
                 if ev["crop"]:
@@ -567,11 +777,10 @@ def oracle_history(ctx, sf, spec, evs, steps, runs, xs, cache=None):
                 for kk, (g, b) in enumerate(info):
                     want_s[g // Tn, b, g % Tn] = xs[kk % len(xs)]
                 want_s = want_s[:, :, lo:]
-                if T.true_measured_modes(spec, sh) == T.assumed_measured_modes(spec, sh):
-                    if r["samples"] is None or r["samples"].shape != want_s.shape or not np.array_equal(r["samples"], want_s):
-                        ctx.fail("samples-placement", f"after {hist}: samples are not arranged as (shot, band, bin) "
-                                 f"(shape {None if r['samples'] is None else r['samples'].shape}, expected {want_s.shape})", rp)
-                        return
+                if r["samples"] is None or r["samples"].shape != want_s.shape or not np.array_equal(r["samples"], want_s):
+                    ctx.fail("samples-placement", f"after {hist}: samples are not arranged as (shot, band, bin) "
+                             f"(shape {None if r['samples'] is None else r['samples'].shape}, expected {want_s.shape})", rp)
+                    return
         prev = st if not (k == "unroll" and step["out"] == "ValueError") else prev
         if prev is None:
             prev = st
@@ -586,25 +795,58 @@ def corpus_cases():
 def run_item(ctx, sf, item, reqs, pending):
     k = item["kind"]
     if k == "history":
-        history_case(ctx, sf, item["spec"], item["evs"], reqs, pending, item.get("xs") or [0.3, -0.2, 0.5])
+        history_case(ctx, sf, item["spec"], item["evs"], reqs, pending, None, item.get("opts"))
+    elif k == "interleaved":
+        interleaved_case(ctx, sf, item["specA"], item["evsA"], item["specB"], item["evsB"], reqs, pending, item.get("shared"),
+                         item.get("opts"))
+    elif k == "mutation":
+        oracle_mutation(ctx, sf, item["spec"], item["evs"], item["change"], item.get("opts"))
     elif k == "loop":
-        oracle_loop(ctx, sf, item["spec"], item["shots"], item.get("xs") or [0.3, -0.2, 0.5, 0.1, -0.4])
+        oracle_loop(ctx, sf, item["spec"], item["shots"], item.get("xs") or [0.3, -0.2, 0.5, 0.1, -0.4], item.get("share", False))
     elif k == "space":
         oracle_space(ctx, sf, item["spec"], item.get("crop", False))
     elif k == "space_samples":
-        oracle_space_samples(ctx, sf, item["spec"], item["shots"], item.get("xs") or [0.3, -0.2, 0.5])
+        oracle_space_samples(ctx, sf, item["spec"], item["shots"], item.get("xs") or [0.3, -0.2, 0.5], item.get("crop", False))
+    elif k == "cropcall":
+        crop_ok(sf, item["spec"]); report_crop_errors(ctx)
+    elif k == "select":
+        oracle_select(ctx, sf, item["spec"], item["shots"], item["kw"])
     elif k == "unroll_flags":
-        unroll_case(ctx, sf, item["spec"], item["shots"], item["space"], reqs, pending)
+        unroll_case(ctx, sf, item["spec"], item["shots"], item["space"], reqs, pending, item.get("share", False))
 
 
-def unroll_case(ctx, sf, spec, shots, space, reqs, pending):
+def unroll_case(ctx, sf, spec, shots, space, reqs, pending, share=False):
     """a single (space-)unrolling compared as a one-call history; programs need not be runnable"""
     evs = [dict(ev="space_unroll" if space else "unroll", shots=shots), dict(ev="roll")]
     case = dict(spec=spec, evs=evs)
     ctx.count("unroll:%s" % ("space" if space else "shift"), case, spec["T"] >= 2 and sum(spec["N"]) >= 2)
-    steps, runs, prog = real_history(sf, spec, evs, [0.0])
+    steps, runs, prog = real_history(sf, spec, evs, [0.0], dict(share=share))
+    for st in steps:
+        if st.pop("inputs_changed", None):
+            ctx.fail("input-mutated", f"N={spec['N']}: (space-)unrolling changed the parameter arrays handed to the program",
+                     dict(kind="unroll_flags", spec=spec, shots=shots, space=space, share=share))
     reqs.append(dict(op="tdm.history", evs=evs, **T.model_cfg(spec)))
     pending.append((case, steps))
+    # TDMProgram.get_mode_order / measured_modes on the unrolled program vs the model
+    p2 = T.build(sf, spec, share=share)
+    (p2.space_unroll if space else p2.unroll)(shots=shots)
+    # options that are not arguments (dark counts) survive in every time bin
+    dcs = [None if o.get("dc") is None else [o["dc"]] for o in spec["ops"]]  # MeasureFock stores one entry per mode
+    if any(d is not None for d in dcs) and not space:
+        got = [getattr(c.op, "dark_counts", None) for c in p2.circuit]
+        if got != dcs * (shots * spec["T"]):
+            ctx.fail("unrolled-command", f"dark_counts of the loop body {dcs} become {got[:2 * len(dcs)]}... in the unrolled circuit",
+                     dict(kind="unroll_flags", spec=spec, shots=shots, space=space, share=share))
+    mcirc = [dict(c, meas=c["cls"].startswith("Measure")) for c in T.canon_circ(p2.circuit)]
+    reqs.append(dict(op="tdm.measOrder", rolled=T.model_cfg(spec)["rolled"], circ=mcirc))
+    try:
+        real_order = dict(order=[int(x) for x in p2.get_mode_order()], modes=[int(x) for x in p2.measured_modes])
+    except Exception as e:  # noqa: BLE001
+        ctx.fail("get_mode_order-raises", f"get_mode_order() of the {'space' if space else 'shift'}-unrolled program (N={spec['N']}, "
+                 f"shots={shots}) raises {type(e).__name__}: {str(e)[:100]}",
+                 dict(kind="unroll_flags", spec=spec, shots=shots, space=space, share=share))
+        real_order = dict(order=None, modes=None)
+    pending.append((dict(spec=spec, shots=shots, space=space, what="get_mode_order"), real_order))
     # property-level: flags and arguments of every unrolled command are those of the rolled command at that bin
     ctx.oracle_cases += 1
     circ = steps[0]["st"]["circuit"]
@@ -616,7 +858,7 @@ def unroll_case(ctx, sf, spec, shots, space, reqs, pending):
             pars = [spec["params"][int(a[1:])][t] if isinstance(a, str) else a for a in o["pars"]]
             if c["cls"] != o["cls"] or c["d"] != bool(o.get("d")) or c["s"] != o.get("s") or c["pars"] != pars:
                 ctx.fail("unrolled-command", f"command {i} of the unrolled circuit is {c}, the loop body has {o} with arguments "
-                         f"{pars} at bin {t}", dict(kind="unroll_flags", spec=spec, shots=shots, space=space))
+                         f"{pars} at bin {t}", dict(kind="unroll_flags", spec=spec, shots=shots, space=space, share=share))
                 break
 
 
@@ -635,14 +877,18 @@ def run(ctx, sf):
     corr_crop(ctx, sf)
     # ---- single unrollings, any shift / flags / integer tags (not executed)
     for _ in range(ctx.n(120, 1500)):
-        spec = T.gen_spec(rng, True)
+        spec = T.gen_spec(rng, True, off_head=0.2)
         for o in spec["ops"]:
             if T.is_meas(o) and rng.random() < 0.3:
                 o["s"] = rng.randint(1, 3)
         # unique integer tags so that a wrong row or column of the parameter arrays is visible
         spec["params"] = [[100 * (i + 1) + t for t in range(spec["T"])] for i in range(len(spec["params"]))]
         space = rng.random() < 0.35
-        unroll_case(ctx, sf, spec, rng.choice([1, 1, 2, 3]), space, reqs, pending)
+        if rng.random() < 0.2:  # a Fock measurement with a dark-count option instead of homodyne
+            for o in spec["ops"]:
+                if T.is_meas(o):
+                    o.update(cls="MeasureFock", pars=[], s=None, dc=rng.randint(1, 3))
+        unroll_case(ctx, sf, spec, rng.choice([1, 1, 2, 3]), space, reqs, pending, share=rng.random() < 0.5)
     flush_histories(ctx, reqs, pending)
     # ---- call histories: exhaustive up to length L on two small programs, random longer ones
     S = lambda r, m: dict(cls="Sgate", regs=[m], pars=[r, 0], d=False, s=None)
@@ -665,20 +911,45 @@ def run(ctx, sf):
                     ev = legal_event(spec, mode, ALPHABET[c])
                     evs.append(ev)
                     mode = tracker_step(mode, ev)
-                history_case(ctx, sf, spec, evs, reqs, pending, xs)
+                history_case(ctx, sf, spec, evs, reqs, pending, xs,
+                             dict(share=(len(combo) + combo[0]) % 2 == 1, reuse_engine=combo[-1] % 2 == 0))
             flush_histories(ctx, reqs, pending)
     for _ in range(ctx.n(60, 800)):
         spec = T.gen_spec(rng, True, T=rng.choice([1, 2, 3, 4]), shift="default" if rng.random() < 0.8 else None,
                           measure=rng.random() < 0.8)
-        history_case(ctx, sf, spec, gen_history(rng, spec, rng.randint(4, 8), crop_ok(sf, spec)), reqs, pending, xs)
+        history_case(ctx, sf, spec, gen_history(rng, spec, rng.randint(4, 8), crop_ok(sf, spec)), reqs, pending, xs,
+                     dict(share=rng.random() < 0.5, reuse_engine=rng.random() < 0.5))
         if len(reqs) >= 200:
             flush_histories(ctx, reqs, pending)
     flush_histories(ctx, reqs, pending)
+    # ---- two programs driven alternately, half of them on the same parameter list objects
+    for _ in range(ctx.n(30, 400)):
+        specA = T.gen_spec(rng, True, T=rng.choice([2, 3, 4]), shift="default" if rng.random() < 0.8 else None)
+        specB = T.gen_spec(rng, True, T=specA["T"], shift="default" if rng.random() < 0.8 else None, off_head=0.2)
+        shared = rng.random() < 0.5
+        if shared:  # same arrays: same values, same number of arrays
+            nb = len(specA["params"])
+            for o in specB["ops"]:
+                o["pars"] = ["p%d" % (int(a[1:]) % nb) if isinstance(a, str) else a for a in o["pars"]]
+            specB["params"] = [list(a) for a in specA["params"]]
+        interleaved_case(ctx, sf, specA, gen_history(rng, specA, rng.randint(3, 6), crop_ok(sf, specA)),
+                         specB, gen_history(rng, specB, rng.randint(3, 6), crop_ok(sf, specB)), reqs, pending, shared,
+                         dict(share=rng.random() < 0.5, reuse_engine=rng.random() < 0.3))
+    flush_histories(ctx, reqs, pending)
+    # ---- in-place change of the user's parameter arrays after a history
+    for _ in range(ctx.n(30, 400)):
+        spec = T.gen_spec(rng, True, T=rng.choice([2, 3, 4]), single_band=rng.random() < 0.6, shift="default" if rng.random() < 0.8 else None)
+        used = sorted({int(a[1:]) for o in spec["ops"] for a in o["pars"] if isinstance(a, str)})
+        i = rng.choice(used)
+        t = rng.randrange(spec["T"])
+        v = spec["params"][i][t] + rng.choice([1, 2]) if rng.random() < 0.7 else 0
+        oracle_mutation(ctx, sf, spec, gen_history(rng, spec, rng.randint(1, 4), crop_ok(sf, spec)), [i, t, v],
+                        dict(share=rng.random() < 0.5))
     # ---- the explicit loop
     for i in range(ctx.n(120, 1500)):
         shift = "default" if rng.random() < 0.65 else None
-        spec = T.gen_spec(rng, False, shift=shift)
-        oracle_loop(ctx, sf, spec, rng.choice([1, 1, 2, 3]), xs[i % 31:] + xs[:i % 31])
+        spec = T.gen_spec(rng, False, shift=shift, mz=True, off_head=0.15)
+        oracle_loop(ctx, sf, spec, rng.choice([1, 1, 2, 3]), xs[i % 31:] + xs[:i % 31], share=rng.random() < 0.5)
     # the hash-order case: second band measured first, band starts 0 and 8
     spec = T.gen_spec(rng, False, N=[8, 1], T=2, shift="default", max_ops=3)
     ms = [o for o in spec["ops"] if T.is_meas(o)]
@@ -692,8 +963,22 @@ def run(ctx, sf):
                 z = rng.randint(0, len(p))
                 p[:z] = [0] * z
         oracle_space(ctx, sf, spec, crop=rng.random() < 0.4 and crop_ok(sf, spec))
-    # ---- known finding: samples of a space-unrolled run
-    oracle_space_samples(ctx, sf, dict(small[0], T=3, params=[[1, 2, 3], [0, 1, 2]]), 1, xs)
+    # ---- samples of space-unrolled runs (all shot counts), post-selection together with engine options
+    for i in range(ctx.n(40, 400)):
+        spec = T.gen_spec(rng, False, single_band=rng.random() < 0.7, shift="default" if rng.random() < 0.7 else None)
+        crop = rng.random() < 0.3 and crop_ok(sf, spec) and any(T.is_meas(o) and o["regs"][0] == 0 for o in spec["ops"])
+        oracle_space_samples(ctx, sf, spec, rng.choice([1, 2, 3]), xs[i % 29:] + xs[:i % 29], crop)
+    for _ in range(ctx.n(10, 80)):
+        oracle_select(ctx, sf, T.gen_spec(rng, False, single_band=True, shift="default"), rng.choice([1, 2]),
+                      rng.choice([dict(crop=True), dict(space_unroll=True), dict(crop=False, space_unroll=False), dict()]))
+    report_crop_errors(ctx)
+
+
+def report_crop_errors(ctx):
+    for spec, msg in CROP_ERRORS[:3]:
+        ctx.fail("get_crop_value-raises", f"get_crop_value() of a single-band program (N={spec['N']}) raises {msg}",
+                 dict(kind="cropcall", spec=spec))
+    CROP_ERRORS.clear()
 
 
 def search(ctx, sf):
@@ -720,8 +1005,15 @@ def _replay_reshape(ctx, sf, rp):
         for b, n in enumerate(N):
             raw.setdefault(starts[b] + (offs[b] + g) % n, []).append(1000 * (g // tb) + 100 * b + g % tb + 7)
             tag_of[(g // tb, b, g % tb)] = 1000 * (g // tb) + 100 * b + g % tb + 7
+    order = None
+    if "rot" in rp:
+        raw, order, C = {}, [], sum(N)
+        for g in range(shots * tb):
+            for b, n in enumerate(N):
+                raw.setdefault((modes[b] + g * rp["rot"]) % C, []).append(tag_of[(g // tb, b, g % tb)])
+                order.append((modes[b] + g * rp["rot"]) % C)
     try:
-        out = reshape_samples({k: [np.array([v]) for v in raw[k]] for k in sorted(raw)}, modes, N, tb)
+        out = reshape_samples({k: [np.array([v]) for v in raw[k]] for k in sorted(raw)}, modes, N, tb, mode_order=order)
         return any(out[modes[b]][s][t] != tag for (s, b, t), tag in tag_of.items())
     except Exception:  # noqa: BLE001
         return True
